@@ -3,7 +3,7 @@
    refinement theorem — those of the flat byte array (ByteFile.bf_step).  For every state in which
    the handle refers to a regular-file node, every method, every argument. *)
 From AF Require Import Lib.Bytes Lib.Path Lib.Ops Gen.Consts Model.MemFile Model.ByteFile Model.MemFs Model.CowView
-  Model.WfOps Proofs.MemFileProof Proofs.MemFsBasics Proofs.MemFsWF Proofs.MemFsStep Proofs.MemFsInv Proofs.CopyUpProof.
+  Model.WfOps Proofs.MemFileProof Proofs.MemFsBasics Proofs.MemFsWF Proofs.MemFsStep Proofs.MemFsInv Proofs.MemFsBelow Proofs.CopyUpProof.
 Local Open Scope Z_scope.
 
 Lemma f_read_href' d h n : href (fst (f_read d h n)) = href h.
@@ -198,7 +198,7 @@ Proof. destruct o; reflexivity. Qed.
 Lemma file_op_wf_c02 o : file_op o = true -> MemFileProof.wf_op o = true.
 Proof. destruct o; cbn; auto. Qed.
 Lemma file_op_wf_c01 s o : file_op o = true -> WfOps.wf_op s o = true.
-Proof. destruct o; cbn; auto; discriminate. Qed.
+Proof. intros H. apply wf_op_of_ord. destruct o; cbn in *; auto; discriminate. Qed.
 
 Lemma run_steps_length {St} (step : St -> op -> St * res) : forall ops s, length (snd (run_steps step s ops)) = length ops.
 Proof.
